@@ -178,7 +178,15 @@ func trimLog(log []string, n int) []string {
 func TestC01(t *testing.T) { runLedgerProperty(t, "C01") }
 func TestC02(t *testing.T) { runLedgerProperty(t, "C02") }
 func TestC03(t *testing.T) { runLedgerProperty(t, "C03") }
-func TestC06(t *testing.T) { runLedgerProperty(t, "C06") }
+func TestC06(t *testing.T) {
+	r := lmRules["C06"]
+	st := newStats(t, "C06", r.rule+"; plus, in every second process, balance queries for untouched wallets issued WHILE the real truncate runs (the scenario of c07_race_test.go): the sum over checkpoint + live ancestors is the same before and after the cut, so every answer must equal it")
+	sim.Chdir(workDir(t))
+	if shard()%2 == 0 {
+		t.Run("while-truncating", func(t *testing.T) { c07Race(t, st, shard()/2) })
+	}
+	t.Run("histories", func(t *testing.T) { runLedgerCases(t, st, "C06", r) })
+}
 func TestC09(t *testing.T) { runLedgerProperty(t, "C09") }
 func TestC10(t *testing.T) {
 	// "genesis cannot name its own issuer as receiver": a direct clause, checked before the histories
